@@ -20,7 +20,7 @@ func init() {
 	register("C01", propMeta{
 		Level: "other",
 		Explanation: "The statement is a running-balance inequality over big integers and is not decided as a whole. Decided structural clauses, each a necessary condition: R01a the only opcode that debits without a balance test (OP_TAKE_ALWAYS) is emitted by the compiler only under `fallback != nil`, right after pushing that fallback's address, and a non-nil fallback is created only for @world (edge isWorld == true) or in the `allowing unbounded overdraft` clause; the VM executes it only through withdrawAlways; " +
-			"R01b Machine.Balances is written only by its owners (ResolveBalances, withdrawAll, withdrawAlways, credit, repay, OP_SAVE); R01c money values are immutable: no mutating big.Int method is applied to a receiver that is not freshly allocated (machine.Zero is shared by every comparison); R01d vm.Run returns no result on the error edge of Execute, and OP_TAKE maps a short funding to ErrInsufficientFund; R01e OP_TAKE_MAX refuses negative amounts before taking.",
+			"R01b Machine.Balances is written only by its owners (ResolveBalances, withdrawAll, withdrawAlways, credit, repay, OP_SAVE); R01c money values are immutable: no mutating big.Int method is applied to a receiver that is not freshly allocated (machine.Zero is shared by every comparison); R01d vm.Run returns no result on the error edge of Execute, and OP_TAKE maps a short funding to ErrInsufficientFund; R01e OP_TAKE_MAX refuses negative amounts before taking. R01h: every entry m.Balances[A][K] written by ResolveBalances is Store.GetBalance(ctx, A, K) of the same account and asset (or machine.Zero for world): the funds a script is checked against are those of the account it debits.",
 		NotDecided:  "the arithmetic of withdrawAll / Take / TakeMax / repay and that the stack carries the right funding to OP_TAKE — value-level facts through a stack whose layout is data.",
 		Trusted:     []string{"math/big semantics"},
 	}, func(c *Ctx) {
@@ -29,6 +29,7 @@ func init() {
 		ruleR01c(c, "R01c")
 		ruleR01de(c)
 		ruleR01f(c)
+		ruleR01h(c)
 		ruleR01g(c)
 	})
 	register("C08", propMeta{
